@@ -1706,6 +1706,24 @@ where
             pvs.push(entry.public_values.clone());
         }
 
+        // The preprocessed width declared by the proof's `stark_common` for each instance must be
+        // the width the rebuilt AIR reads: `verify_batch` evaluates every AIR against the declared
+        // width, so a smaller one indexes out of bounds and a larger one lets the AIR read a prefix
+        // of the committed columns under a different layout.
+        for (i, air) in airs.iter().enumerate() {
+            let declared = common
+                .preprocessed
+                .as_ref()
+                .and_then(|g| g.instances.get(i).and_then(|m| m.as_ref()).map(|m| m.width))
+                .unwrap_or(0);
+            let expected = BaseAir::<Val<SC>>::preprocessed_width(air);
+            if declared != expected {
+                return Err(BatchStarkProverError::Verify(format!(
+                    "preprocessed width mismatch for table {i}: proof declares {declared}, AIR reads {expected}"
+                )));
+            }
+        }
+
         // Derive lookups from the rebuilt AIRs so the layout always reflects the effective
         // lane counts stored in `proof.table_packing`. The serialized `stark_common` only
         // carries the preprocessed binding, not the lookup contexts.
